@@ -24,7 +24,27 @@ def _wild_match(model, impl):
     return pos == len(impl)
 
 
+def _refused_alike(impl, model):
+    """malformed files (mut/hdr cases; the property speaks about well-formed streams): both sides refuse the file, and what one of them
+    delivered before refusing is a prefix of what the other delivered — WHERE in a damaged file the refusal comes is not compared"""
+    def parts(s):
+        t = s.split(" ")
+        es = [x for x in t if x.startswith("E[")]
+        rest = [x for x in t if not x.startswith("E[")]
+        return es, rest
+    ei, ri = parts(impl)
+    em, rm = parts(model)
+    bad = lambda r: any(x.startswith("end=") and not x.startswith("end=ok") for x in r) or any(x.startswith("h=") and x != "h=ok" for x in r)
+    if not (bad(ri) and bad(rm)):
+        return False
+    n = min(len(ei), len(em))
+    return ei[:n] == em[:n]
+
+
 def _equal(case, impl, model):
+    f0 = case.split(" ")
+    if impl != model and len(f0) > 2 and not f0[2].startswith("wf") and ",?]" not in model and _refused_alike(impl, model):
+        return True
     if impl != model:
         if ",?]" not in model:
             return False
